@@ -19,6 +19,7 @@ inductive XTag
   | blockStart | blockEnd | auto | autoWk | autoDrop | deadlock       -- block.start block.end auto<k> autowk<n> autodrop<n> deadlock
   -- unit stream built-ins
   | detach | detachNone | detachDrop         -- det<k> det<k>:none detdrop<k>
+  | hold | holdSkip                         -- hold hold:skip
   | panicAt                                 -- @panic (the point where a Rust panic started)
   | usNew | usRead | usWrite | usCancelRead | usCancelWrite | usDropR | usDropW
 deriving DecidableEq, Repr
@@ -37,6 +38,7 @@ def XTag.fmt : XTag → List Nat → String
   | .blockStart, [] => "block.start" | .blockEnd, [] => "block.end"
   | .auto, [k] => s!"auto{k}" | .autoWk, [n] => s!"autowk{n}" | .autoDrop, [n] => s!"autodrop{n}"
   | .deadlock, [] => "deadlock" | .panicAt, [] => "@panic"
+  | .hold, [] => "hold" | .holdSkip, [] => "hold:skip"
   | .detach, [k] => s!"det{k}" | .detachNone, [k] => s!"det{k}:none" | .detachDrop, [k] => s!"detdrop{k}"
   | .usNew, [r, w] => s!"us.new={r}:{w}" | .usRead, [h, c] => s!"us.read({h})={c}"
   | .usWrite, [h, c] => s!"us.write({h})={c}" | .usCancelRead, [h, c] => s!"us.cancel-read({h})={c}"
@@ -70,6 +72,7 @@ def XTag.parse (name : String) (nums : List Nat) (rest : String) : Option (XTag 
     | "block.start", 0 => some .blockStart | "block.end", 0 => some .blockEnd
     | "auto", 1 => some .auto | "autowk", 1 => some .autoWk | "autodrop", 1 => some .autoDrop
     | "deadlock", 0 => some .deadlock | "@panic", 0 => some .panicAt
+    | "hold", 0 => some (if skip then .holdSkip else .hold)
     | "det", 1 => some (if none' then .detachNone else .detach) | "detdrop", 1 => some .detachDrop
     | "us.new", 2 => some .usNew | "us.read", 2 => some .usRead | "us.write", 2 => some .usWrite
     | "us.cancel-read", 2 => some .usCancelRead | "us.cancel-write", 2 => some .usCancelWrite
